@@ -11,6 +11,15 @@ from .common import hx, unhx, hn, outcome, load_repo
 from . import keys as keypool
 from .c03 import World, check_pins, canon_plain, keydesc, cfb, CIPHER_NAMES, KEYLEN, BLOCK, HASHES
 
+# finding: PGPy decrypts the legacy Symmetrically Encrypted Data packet (tag 9, no MDC) with the session key of the message; the body
+# of an integrity-protected packet re-framed as tag 9 ALWAYS passes the 16-bit quick check (same CFB start) and the MDC is never looked at
+DOWNGRADE = 'C04/legacy-sed-downgrade'
+
+
+def is_legacy_reframe(mut):
+    return mut.startswith('tag 18 -> 9') or mut.startswith('downgrade')
+
+
 PIN_ONLY = ['IntegrityProtectedSKEDataV1.decrypt', 'IntegrityProtectedSKEDataV1.parse', 'PKESessionKeyV3.decrypt_sk', 'PKESessionKeyV3.parse',
             'SKESessionKeyV4.decrypt_sk', 'SKESessionKeyV4.parse', 'ECDHCipherText.decrypt', 'ECDHCipherText.parse', 'ECPoint.__init__',
             'PGPMessage.decrypt', 'PGPKey.decrypt', 'symenc._decrypt']
@@ -67,7 +76,8 @@ class Sweep:
         # (alts: a whole genuine data packet made with the SAME caller-supplied session key was substituted -- a replay, its own
         #  plaintext is the only other acceptable outcome)
         if o[0] == 'ok' and o[1] != want and not any(o[1] == a[1] for a in alts):
-            ctx.fail(suite, 'a modified / mis-keyed message decrypted to a DIFFERENT plaintext', dict(case, impl=repr(o)[:400]))
+            ctx.fail(suite, 'a modified / mis-keyed message decrypted to a DIFFERENT plaintext', dict(case, impl=repr(o)[:400]),
+                     defect_key=DOWNGRADE if is_legacy_reframe(mut) else None)
         if o[0] == 'ok':
             self.same_accepts[suite] = self.same_accepts.get(suite, 0) + 1
         # correspondence with the model gate
@@ -79,7 +89,7 @@ class Sweep:
         m_ok = mo.startswith('ok ')
         if m_ok != (o[0] == 'ok'):
             ctx.fail(suite, 'model gate and implementation disagree on accept/reject', dict(case, impl=repr(o)[:200], model=mo[:200]))
-        elif m_ok and unhx(mo[3:])[:-22] != inner and not any(unhx(mo[3:])[:-22] == a[0] for a in alts):
+        elif m_ok and unhx(mo[3:]) != inner and not any(unhx(mo[3:]) == a[0] for a in alts):
             ctx.fail(suite, 'model accepted with a different plaintext', dict(case, model=mo[:200]))
         if not m_ok:
             k = (mo[6:], o[1] if o[0] == 'raise' else 'ok')
@@ -198,6 +208,67 @@ def structural(ctx, sw, w, label, raw, recips, inner, want, alg, other=None):
             sw.one('structural', label, mu[0], mu[1], r, inner, want, alts=mu[2] if len(mu) > 2 else ())
 
 
+def keyed_gate(ctx, sw, w, label, raw, recips, inner, want, alg, sk):
+    """faults made WITH the session key (decrypt, damage the integrity structure, recompute, re-encrypt): only the named gate
+    condition can refuse them, so each of the comparisons in IntegrityProtectedSKEDataV1.decrypt is exercised on its own"""
+    pk = walk(raw)
+    sp = [p for p in pk if p[0] == 18][0]
+    ct = raw[sp[2] + 1:sp[3]]
+    bs = BLOCK[alg]
+    pt = cfb(alg, sk, ct, False)
+    body = pt[:-22]
+    sha = lambda x: hashlib.sha1(x).digest()
+    def remake(newpt):
+        c = cfb(alg, sk, bytes(newpt), True)
+        return raw[:sp[1]] + newhdr(18, 1 + len(c)) + b'\x01' + c + raw[sp[3]:]
+    muts = []
+    for k in (bs - 2, bs - 1, bs, bs + 1):
+        for bit in (0, 3, 7):
+            b2 = bytearray(body)
+            b2[k] ^= 1 << bit
+            b2 = bytes(b2)
+            muts.append(('keyed: prefix/repeat octet %d bit %d damaged, MDC recomputed' % (k, bit), b2 + b'\xd3\x14' + sha(b2 + b'\xd3\x14')))
+    muts.append(('keyed: MDC header D2 14, digest over it', body + b'\xd2\x14' + sha(body + b'\xd2\x14')))
+    muts.append(('keyed: MDC header D3 15, digest over it', body + b'\xd3\x15' + sha(body + b'\xd3\x15')))
+    muts.append(('keyed: digest over the data without D3 14', body + b'\xd3\x14' + sha(body)))
+    muts.append(('keyed: digest over the data without the prefix', body + b'\xd3\x14' + sha(body[bs + 2:] + b'\xd3\x14')))
+    muts.append(('keyed: digest over the data without the repeated octets', body + b'\xd3\x14' + sha(body[:bs] + body[bs + 2:] + b'\xd3\x14')))
+    muts.append(('keyed: 19-octet digest', body + b'\xd3\x13' + sha(body + b'\xd3\x13')[:19]))
+    muts.append(('keyed: MDC in front of the data', body[:bs + 2] + b'\xd3\x14' + sha(body[:bs + 2] + b'\xd3\x14') + body[bs + 2:]))
+    muts.append(('keyed: no MDC at all', body))
+    for name, newpt in muts:
+        blob = remake(newpt)
+        for r in recips:
+            o = sw.one('keyed-gate', label, name, blob, r, inner, want)
+            if o[0] != 'raise':
+                ctx.fail('keyed-gate', 'a malformed integrity structure was accepted', {'op': 'fault', 'blob': blob.hex(), 'recipient': list(r), 'want': None, 'mutation': name})
+
+
+def downgrade_witness(ctx, sw, w):
+    """deterministic reproduction of the finding: fresh messages until the re-framed one 'decrypts' (the garbage first block
+    parses as a packet in roughly one message out of ten)"""
+    recips = [('P', 'pw0', 8, 16)]
+    tries = ctx.n(600, 3000)
+    for i in range(tries):
+        raw, inner, want = make_message(ctx, w, recips, 7)
+        pk = walk(raw)
+        sp = [p for p in pk if p[0] == 18][0]
+        ct = raw[sp[2] + 1:sp[3]]
+        # (a) body as it is; (b) the realigned form: one garbage block, then the ORIGINAL plaintext from its second block on
+        for name, body in (('tag 18 -> 9 without version octet', ct), ('tag 18 -> 9, realigned: prefix || whole data again', ct[:18] + ct)):
+            blob = raw[:sp[1]] + newhdr(9, len(body)) + body + raw[sp[3]:]
+            o = w.impl_decrypt(blob, recips[0])
+            ctx.case('downgrade-search', (i, name), nontrivial=o[0] == 'ok')
+            if o[0] == 'ok' and o[1] != want:
+                ctx.fail('downgrade-search', 'integrity-protected data re-framed as a legacy tag-9 packet decrypts, without error, to a DIFFERENT plaintext',
+                         {'op': 'fault', 'suite': 'downgrade-search', 'msg': 'passphrase/AES128', 'mutation': name, 'recipient': list(recips[0]),
+                          'blob': blob.hex(), 'want': want, 'impl': repr(o)[:300], 'original': raw.hex()}, defect_key=DOWNGRADE)
+                ctx.notes.append('finding %s reproduced after %d message(s)' % (DOWNGRADE, i + 1))
+                return True
+    ctx.notes.append('finding %s NOT reproduced in %d messages' % (DOWNGRADE, tries))
+    return False
+
+
 def wrong_secrets(ctx, sw, w, label, raw, recips, inner, want):
     rng = ctx.rng
     tried = 0
@@ -230,6 +301,8 @@ def run(ctx):
             specs += [('passphrase/3DES', [('P', 'pw0', 2, 0)], 2), ('p256/CAST5', [('K', 'p256')], 3), ('p521/Camellia256', [('K', 'p521')], 13),
                       ('p384/Blowfish', [('K', 'p384')], 4), ('mixed pass+x25519+pass/AES192', [('P', 'pw0', 10, 16), ('K', 'ed25519b'), ('P', 'second', 11, 96)], 8),
                       ('secp256k1/Camellia128', [('K', 'secp256k1')], 11), ('passphrase/Camellia192', [('P', 'pw0', 9, 16)], 12)]
+        if ctx.quick:
+            specs.append(('mixed pass+x25519/Camellia128 (sampled)', [('P', 'pw0', 10, 16), ('K', 'ed25519b')], 11))
         specs = [s for s in specs if s[2] in w.ciphers and all(r[0] == 'P' or r[1] in w.keys for r in s[1])]
         for label, recips, alg in specs:
             sk = bytes(rng.randrange(256) for _ in range(KEYLEN[alg]))
@@ -242,7 +315,13 @@ def run(ctx):
                     ctx.fail('unmodified', 'unmodified message does not decrypt', {'op': 'fault', 'blob': raw.hex(), 'recipient': list(r), 'want': want})
             slow = any(r[0] == 'K' and r[1].startswith('rsa') for r in recips)
             pk = walk(raw)
-            if slow and ctx.quick:
+            if ctx.quick and 'sampled' in label:
+                esks = [p for p in pk if p[0] in (1, 3)]
+                pos = sorted(set([i for p in pk for i in range(p[1], p[2] + 2)] + list(range(0, len(raw), 5))))
+                n = bit_flips(ctx, sw, label, raw, recips, inner, want, positions=pos)
+                truncations(ctx, sw, label, raw, recips, inner, want, offsets=range(0, len(raw), 3))
+                ctx.notes.append('%s: %d single-bit flips x recipients (packet headers + every 5th octet), truncation at every 3rd offset' % (label, n))
+            elif slow and ctx.quick:
                 # RSA private-key operations cost ~75 ms each in the implementation: all octets of headers / key id / algorithm /
                 # bit count + a sample of the rest in the quick tier; the thorough tier sweeps every bit
                 esk = [p for p in pk if p[0] == 1][0]
@@ -259,14 +338,18 @@ def run(ctx):
                 truncations(ctx, sw, label, raw, recips, inner, want)
                 ctx.exhaustive.append('%s (%d octets: %s): every single-bit flip (%d) and truncation at every offset' %
                                       (label, len(raw), ' '.join('tag%d[%d..%d)' % (p[0], p[1], p[3]) for p in pk), n))
-            if not (slow and ctx.quick):
+            if ctx.quick and 'sampled' in label:
+                structural(ctx, sw, w, label, raw, recips, inner, want, alg, other=(raw2, True, inner2, want2))
+            elif not (slow and ctx.quick):
                 structural(ctx, sw, w, label, raw, recips, inner, want, alg, other=(raw2, True, inner2, want2))
                 structural(ctx, sw, w, label + ' (2)', raw, recips, inner, want, alg, other=(raw3, False, inner3, want3))
             else:
                 # a reduced structural set for the slow key: MDC games and splices only
                 for name, blob in rsa_quick_mutations(ctx, raw, raw2, alg):
                     sw.one('structural', label, name, blob, recips[0], inner, want)
+            keyed_gate(ctx, sw, w, label, raw, recips, inner, want, alg, sk)
             wrong_secrets(ctx, sw, w, label, raw, recips, inner, want)
+        downgrade_witness(ctx, sw, w)
         ctx.notes.append('model exception vs implementation exception on rejected inputs: %s' %
                          sorted(('%s / %s' % k, v) for k, v in sw.pairs.items()))
         ctx.notes.append('mutations that still decrypt (to the ORIGINAL plaintext): %s' % sw.same_accepts)
